@@ -29,11 +29,40 @@ TYPES = [('bool', 0), ('glm::int8', 0), ('glm::uint8', 0), ('glm::int16', 0), ('
          ('glm::uint32', 0), ('glm::int64', 0), ('glm::uint64', 0), ('float', 1), ('double', 1)]
 MAT_TYPES = [('float', 1), ('double', 1), ('glm::int32', 0), ('glm::uint32', 0)]
 
+ROOT = ['/repo']
+NAMED_CONFIGS = (5, 6)      # configurations in which the typedef names of gtc/type_aligned.hpp are measured as well
+
+def named_types():
+    """(name, kind, c, r, element size the NAME promises, is-float, aligned, precision) for every typedef of gtc/type_aligned.hpp:
+    (aligned|packed)_[(highp|mediump|lowp)_](b|i|u|d|)(vecN | matN | matCxR) - what the name says, not what the typedef is"""
+    import re
+    out = []
+    try: txt = open(os.path.join(ROOT[0], 'glm', 'gtc', 'type_aligned.hpp')).read()
+    except OSError: return out
+    for m in re.finditer(r'^\s*typedef\s+[^;]*?\b((aligned|packed)_(?:(highp|mediump|lowp)_)?([biud]?)(vec|mat)(\d)(?:x(\d))?)\s*;', txt, flags=re.M):
+        name, al, prec, el, km, n1, n2 = m.groups()
+        tsize, isf = {'': (4, 1), 'd': (8, 1), 'i': (4, 0), 'u': (4, 0), 'b': (1, 0)}[el]
+        q = {'highp': 0, None: 0, 'mediump': 1, 'lowp': 2}[prec]
+        if km == 'vec': out.append((name, 0, int(n1), 1, tsize, isf, 1 if al == 'aligned' else 0, q))
+        else: out.append((name, 1, int(n1), int(n2 or n1), tsize, isf, 1 if al == 'aligned' else 0, q))
+    return out
+
 def gen(cfg):
     cid, name, defs, flags = cfg
     o = []
     for d in defs: o.append('#define %s' % d)
     o.append('#include <glm/glm.hpp>\n#include <glm/gtc/quaternion.hpp>\n#include <glm/gtc/type_ptr.hpp>\n#include <cstdio>\n#include <cstddef>')
+    if cid in NAMED_CONFIGS: o.append('#include <glm/gtc/type_aligned.hpp>')
+    o.append('''
+// rows for typedef NAMES: the expectations (shape, element size, aligned or packed) come from the name, the measurements from the type behind it
+template<class V> static void row_vec_named(int cfg, int L, int ts, int isf, int al, int q) { static V v;
+  printf("ROW %d 0 %d 1 %d %d %d %d %d %d %d %d %d %d %d %d |", cfg, L, ts, (int)alignof(typename V::value_type), isf, al, q, (int)sizeof(V), (int)alignof(V),
+    (int)((char*)glm::value_ptr(v) - (char*)&v), (int)((char const*)glm::value_ptr(static_cast<V const&>(v)) - (char const*)&v), (int)v.length(), (int)sizeof(typename V::length_type), 0);
+  for (int i = 0; i < (int)v.length(); ++i) printf(" %d", (int)((char*)&v[i] - (char*)&v)); printf("\\n"); }
+template<class M> static void row_mat_named(int cfg, int C, int R, int ts, int isf, int al, int q) { static M m;
+  printf("ROW %d 1 %d %d %d %d %d %d %d %d %d %d %d %d %d %d |", cfg, C, R, ts, (int)alignof(typename M::value_type), isf, al, q, (int)sizeof(M), (int)alignof(M),
+    (int)((char*)glm::value_ptr(m) - (char*)&m), (int)((char const*)glm::value_ptr(static_cast<M const&>(m)) - (char const*)&m), (int)m.length(), (int)sizeof(typename M::length_type), (int)sizeof(typename M::col_type));
+  for (int c = 0; c < (int)m.length(); ++c) for (int r = 0; r < (int)m[0].length(); ++r) printf(" %d", (int)((char*)&m[c][r] - (char*)&m)); printf("\\n"); }''')
     o.append('''
 template<class V> static void offs_vec(V& v) { for (int i = 0; i < (int)v.length(); ++i) printf(" %d", (int)((char*)&v[i] - (char*)&v)); }
 template<class M> static void offs_mat(M& m) { for (int c = 0; c < (int)m.length(); ++c) for (int r = 0; r < (int)m[0].length(); ++r) printf(" %d", (int)((char*)&m[c][r] - (char*)&m)); }
@@ -74,6 +103,10 @@ int main() {''')
     o.append('#if HAVE_ALIGNED')
     body(aquals)
     o.append('#endif')
+    if cid in NAMED_CONFIGS:
+        for (nm_, kind, c, r, ts, isf, al, q) in named_types():
+            if kind == 0: o.append('  row_vec_named<glm::%s>(%d, %d, %d, %d, %d, %d);' % (nm_, cid, c, ts, isf, al, q))
+            else: o.append('  row_mat_named<glm::%s>(%d, %d, %d, %d, %d, %d, %d);' % (nm_, cid, c, r, ts, isf, al, q))
     # the default-qualifier typedefs users actually write
     o.append('  { static glm::vec4 v; printf("DEF %d vec4 %%d %%d\\n", (int)sizeof(v), (int)alignof(glm::vec4)); }' % cid)
     o.append('  { static glm::vec3 v; printf("DEF %d vec3 %%d %%d\\n", (int)sizeof(v), (int)alignof(glm::vec3)); }' % cid)
@@ -83,6 +116,7 @@ int main() {''')
 
 def main():
     root, out, cache = sys.argv[1], sys.argv[2], sys.argv[3]
+    ROOT[0] = root
     glmhash = sys.argv[4] if len(sys.argv) > 4 else ''
     os.makedirs(cache, exist_ok=True)
     results = {}
